@@ -1,6 +1,7 @@
 package props
 
 import (
+	sdk "github.com/cosmos/cosmos-sdk/types"
 	"strings"
 	"testing"
 
@@ -50,6 +51,31 @@ func oracleConfig(t *rapid.T) sim.Config {
 	return cfg
 }
 
+// oracleDynamic: outside every submission window a price transaction can only be rejected;
+// C12's histories then mostly move on to the next block (C13 keeps the static weights: rejected
+// submissions are its subject).
+func oracleDynamic(m *Machine, w map[string]int) map[string]int {
+	open := false
+	for _, k := range m.Keys {
+		if !m.C.ValSet.HasAddress(k.ConsAddr()) {
+			continue
+		}
+		if n, found := m.C.App.OracleKeeper.GetNonce(m.C.Ctx(), sdk.ConsAddress(k.ConsAddr()).String()); found && len(n.NonceList) > 0 {
+			open = true
+			break
+		}
+	}
+	if open {
+		return w
+	}
+	out := map[string]int{}
+	for k, v := range w {
+		out[k] = v
+	}
+	out["price"] = w["price"] / 8
+	return out
+}
+
 func oracleWeights() map[string]int {
 	return map[string]int{"price": 60, "nextBlock": 24, "depositLST": 2, "delegate": 3, "undelegate": 1, "optOut": 3, "optIn": 2}
 }
@@ -59,7 +85,7 @@ func init() {
 		ID: "C12",
 		Rule: "rapid histories of signed oracle price transactions through the full ante chain (1-5 validators with power splits around 2/3, 1-2 feeders with generated start blocks, intervals, end blocks and window sizes; agreeing, conflicting, duplicate, late and multi-source-round submissions in any order and block placement) plus stake changes that alter the validator set, against a round model; " +
 			"non-trivial = a history with at least one round closed by consensus and one closed by carry-forward, with at least 3 validators of unequal power; distinct = hash of the (kind, outcome) sequence",
-		Gen:      GenOpts{Weights: oracleWeights(), HostilePct: 10, ExtremePct: 0, Anchor: true, Tempos: []int{3, 8, 30}, CapBits: 40, ClampBits: 40, TwoSignerPct: 6},
+		Gen:      GenOpts{Weights: oracleWeights(), HostilePct: 10, ExtremePct: 0, Anchor: true, Tempos: []int{3, 8, 30}, CapBits: 40, ClampBits: 40, TwoSignerPct: 6, Dynamic: oracleDynamic},
 		MinSteps: 30,
 		MaxSteps: 110,
 		Config:   oracleConfig,
